@@ -83,6 +83,20 @@ var (
 	offsets = []int64{5000, 7000, 60000, 1000, 15000, 30000, 1, 14999}
 )
 
+// rangeBelow picks a range shorter than the step (0 if there is none in the pool).
+func rangeBelow(rt *rapid.T, step int64) int64 {
+	var c []int64
+	for _, r := range ranges {
+		if r < step {
+			c = append(c, r)
+		}
+	}
+	if len(c) == 0 {
+		return 0
+	}
+	return pick(rt, c, "rangeBelowStep")
+}
+
 // genInstantTime: evaluation time of an instant query (/api/v1/query takes any time, fractional
 // seconds too). Whether Select may read the 15 s roll-up is decided from the alignment of the
 // window (promQueryable.go:142), so two thirds of the times sit exactly on a multiple of 15 s /
@@ -147,6 +161,11 @@ func genShape(rt *rapid.T) queryShape {
 	if chance(rt, 15, "bigStep") {
 		// steps at or above the threshold reach the raw path for other reasons only
 		q.Step = pick(rt, []int64{15000, 20000, 30000, 60000}, "bigStepMs")
+	}
+	if q.Range >= q.Step && chance(rt, 20, "stepAboveRange") {
+		if r := rangeBelow(rt, q.Step); r > 0 {
+			q.Range = r
+		}
 	}
 	return q
 }
@@ -215,6 +234,10 @@ func samplesForHints(h *storage.SelectHints) func(rt *rapid.T, i int) ([]int64, 
 	if h.Step > 0 {
 		anchors = append(anchors, lo+h.Range+h.Step, lo+h.Step)
 	}
+	if h.Range > 0 && h.Step > h.Range {
+		// lower edges T-Range of the first evaluation windows (closed windows of the pinned engine)
+		anchors = []int64{lo, lo, lo + h.Step, lo + h.Step, lo + 2*h.Step, lo + h.Range, lo + h.Range + h.Step, hi}
+	}
 	return genSamplesFor(lo, hi, anchors)
 }
 
@@ -226,9 +249,66 @@ type asmCase struct {
 
 func genAsm(rt *rapid.T) asmCase {
 	q := genShape(rt)
+	gen := samplesForHints
+	if chance(rt, 22, "acrossDays") {
+		q = shapeAcrossDays(rt, q)
+		gen = func(h *storage.SelectHints) func(rt *rapid.T, i int) ([]int64, []float64) {
+			return genSamplesAcrossDays(h.Start-baseMs, h.End-baseMs)
+		}
+	}
 	h := q.hints()
-	db := genMDB(rt, 7, samplesForHints(h))
+	db := genMDB(rt, 7, gen(h))
 	return asmCase{DB: db, Ms: genMatchers(rt, &db, 2), Q: q}
+}
+
+// onLowerEdge (evidence only): a selected series has a sample exactly on the lower edge T-Range of
+// an evaluation window, T = Start + Range + k*Step <= End (windows of the pinned engine are closed).
+func onLowerEdge(db *mDB, selected func(s *mSeries) bool, h *storage.SelectHints) bool {
+	first := h.Start + h.Range
+	for i := range db.Series {
+		s := &db.Series[i]
+		if !selected(s) {
+			continue
+		}
+		for _, w := range inRange(s, h) {
+			if d := w.T + h.Range - first; d >= 0 && d%h.Step == 0 && w.T+h.Range <= h.End {
+				return true
+			}
+		}
+	}
+	return false
+}
+
+// shapeAcrossDays moves a query shape so that its select window contains a UTC midnight: either
+// the evaluation time / query start is put next to the midnight after baseMs (the look-back or
+// the range reaches over it), or the range selector is made one to three days long.
+func shapeAcrossDays(rt *rapid.T, q queryShape) queryShape {
+	if chance(rt, 45, "longRange") {
+		q.Range = pick(rt, dayRanges, "dayRange")
+		q.Func = pick(rt, rangeFuncs, "rfunc")
+		if q.Instant {
+			q.Start = midnightRel + int64(between(rt, -7200, 7200, "aroundMidnightSec"))*1000
+			q.End = q.Start
+		} else {
+			q.Start = midnightRel + int64(between(rt, -40, 40, "start15"))*15000
+			q.End = q.Start + int64(between(rt, 1, 8, "len15"))*15000
+		}
+		return q
+	}
+	if q.Instant {
+		reach := int64(lookbackMs)
+		if q.Range > 0 {
+			reach = q.Range
+		}
+		// T - offset - reach < midnight <= T - offset
+		q.Start = midnightRel + q.Offset + int64(between(rt, 0, int(reach/500)-1, "afterMidnight"))*500
+		q.End = q.Start
+		return q
+	}
+	n := (q.End - q.Start) / 15000
+	q.Start = midnightRel - int64(between(rt, 0, int(n), "beforeMidnight15"))*15000
+	q.End = q.Start + n*15000
+	return q
 }
 
 var globalsOnce sync.Once
@@ -506,6 +586,26 @@ func predAsm(c asmCase, o *evid.Obs) error {
 	}
 	if c.Q.Step >= 15000 {
 		o.Tag("step>=15s")
+	}
+	if span, early, lastOnly := dayClasses(&c.DB, func(s *mSeries) bool { return directSelect(s, pms) == vSelect }, h); span > 0 {
+		o.Tag("window-crosses-midnight")
+		if span > 1 {
+			o.Tag("window-spans-3+-days")
+		}
+		if early {
+			o.Tag("midnight:selected-series-stops-before-last-day")
+		}
+		if lastOnly {
+			o.Tag("midnight:selected-series-only-on-last-day")
+		}
+		if early && lastOnly {
+			o.Tag("midnight:both-kinds")
+		}
+	}
+	if h.Range > 0 && h.Step > h.Range {
+		if onLowerEdge(&c.DB, func(s *mSeries) bool { return directSelect(s, pms) == vSelect }, h) {
+			o.Tag("step>range:sample-on-window-lower-edge")
+		}
 	}
 	if rawOnlyByStep(h) {
 		if c.Q.Instant {
